@@ -64,7 +64,7 @@ func (g *Gen) concCmd(tk map[mType][]string) []string {
 		return l[g.r.IntN(len(l))]
 	}
 	s, l, h, z := func() string { return ks(tString) }, func() string { return ks(tList) }, func() string { return ks(tHash) }, func() string { return ks(tSet) }
-	switch g.r.IntN(44) {
+	switch g.r.IntN(48) {
 	case 0, 1, 2:
 		return []string{"INCR", s()}
 	case 3:
@@ -133,6 +133,13 @@ func (g *Gen) concCmd(tk map[mType][]string) []string {
 		return []string{"EXPIRE", g.key(), "100000"}
 	case 42:
 		return []string{"PERSIST", g.key()}
+	case 43, 44:
+		// the whole key space in one reply: a multi-key command seen half done shows here
+		return []string{"KEYS", g.pick("*", "k*", "k[0-2]")}
+	case 45:
+		return []string{"MSET", g.key(), g.val(), g.key(), g.val(), g.key(), g.val()}
+	case 46:
+		return []string{g.pick("DEL", "UNLINK"), g.key(), g.key(), g.key()}
 	default:
 		return []string{"DBSIZE"}
 	}
@@ -146,6 +153,7 @@ func genConcPlan(prop string, seed uint64, thorough bool) *Plan {
 	p.Knobs.Sticky = []int{0, 30, 60, 85}[g.r.IntN(4)]
 	p.Knobs.Stall = []int{0, 20, 20, 40}[g.r.IntN(4)]
 	p.Knobs.PCT = []int{0, 0, 0, 2, 3}[g.r.IntN(5)]
+	p.Knobs.UnlockYield = g.chance(2)
 	tk := map[mType][]string{}
 	types := []mType{tString, tList, tHash, tSet}
 	for i, k := range g.keys {
@@ -308,6 +316,7 @@ func genConcTxPlan(prop string, seed uint64, thorough bool) *Plan {
 	p.Knobs.Sticky = []int{0, 30, 60, 85}[g.r.IntN(4)]
 	p.Knobs.Stall = []int{0, 20, 20, 40}[g.r.IntN(4)]
 	p.Knobs.PCT = []int{0, 0, 0, 2, 3}[g.r.IntN(5)]
+	p.Knobs.UnlockYield = g.chance(2)
 	tk := map[mType][]string{}
 	types := []mType{tString, tList, tHash, tSet}
 	var pro []Item
